@@ -350,7 +350,8 @@ C02_CORE = [("Ethernet", 22), ("Dot1Q", 12), ("IPv4", 28), ("IPv6", 44), ("TCP",
 
 def gen_c02(tier, enum):
     out = ["package layers", ""]
-    for T, n in C02_CORE:
+    extra = [tuple(x.split(":")) for x in os.environ.get("VERIF_C02_EXTRA", "").split(",") if x]
+    for T, n in list(C02_CORE) + [(t, int(k)) for t, k in extra]:
         if tier == "thorough":
             n += 8
         out.append(f"func verif_C02_det_{T}()    {{ c02Determinism(LayerType{T}, {n}) }}")
@@ -450,9 +451,9 @@ PROPS = {
         "pkgs": [MOD + "/layers"],
         "static": [("layers", "c02.go")],
         "generate": gen_c02,
-        "bounds": "ten core first-layer types (Ethernet, Dot1Q, IPv4, IPv6, TCP, UDP, ICMPv4, ICMPv6, GRE, ARP), input of symbolic length up to header+8 bytes (quick) / +16 (thorough); determinism: decode, unrelated decode, decode again, with and without NoCopy, write barrier on the caller's buffer and on all package-level state; sharing: two reader goroutines run every accessor including VerifyChecksums on one eager packet whose whole object graph is frozen for writing",
+        "bounds": "ten core first-layer types (Ethernet, Dot1Q, IPv4, IPv6, TCP, UDP, ICMPv4, ICMPv6, GRE, ARP), input of symbolic length up to header+8 bytes (quick) / +16 (thorough); determinism: decode, unrelated decode, decode again, with and without NoCopy, write barrier on the caller's buffer and on all package-level state; RadioTap with the data-pad flag (concrete radiotap header and frame control, symbolic 802.11 frame, NoCopy); sharing: two reader goroutines run every accessor including VerifyChecksums on one eager packet whose whole object graph is frozen for writing",
         "outside": "the Go race detector is used only to confirm a reported store natively; more than two readers; String()/Dump() rendering (fmt/reflect)",
-        "quick": {"timeout": 1200, "maxpaths": 150, "partial_ok_all": True, "unsupported_ok": True, "units": "verif_C02_(det|shared)_(Ethernet|IPv4|TCP|UDP|ICMPv4|ICMPv6|GRE)"},
+        "quick": {"timeout": 1200, "maxpaths": 150, "partial_ok_all": True, "unsupported_ok": True, "units": "verif_C02_(det|shared)_(Ethernet|IPv4|TCP|UDP|ICMPv4|ICMPv6|GRE|radiotap_datapad)"},
         "thorough": {"timeout": 3000, "maxpaths": 10000, "partial_ok_all": True, "unsupported_ok": True},
     },
     "C04": {
